@@ -4,7 +4,8 @@
 (* sequences of the real mxlpy.Simulator.  A driver (mbt/simkit.py) logs,  *)
 (* per call: the operation with its arguments (integer ticks, base 0),     *)
 (* whether it raised, and the resulting segments (index in ticks and the   *)
-(* recorded parameter values per segment).  Each event must be what the    *)
+(* recorded parameter values per segment; once the history has read the   *)
+(* computed views, also their index).  Each event must be what the         *)
 (* SAME effect operator Eff of Simulator.tla yields from the state reached *)
 (* so far; the steady-state time stamp is bound from the log and only has  *)
 (* to be later than the time reached.  One line per state is printed:      *)
@@ -18,7 +19,8 @@ Traces == JsonDeserialize(IOEnv.TRACE_FILE)
 
 VARIABLES tid, l
 
-Tm(o) == T(0, o)
+\* logged times are single integers: 1000 * ticks + epsilons
+Tm(v) == [b |-> 0, o |-> v \div 1000, e |-> v % 1000]
 Tms(s) == [j \in 1..Len(s) |-> Tm(s[j])]
 
 ToOp(e) ==
@@ -32,7 +34,7 @@ ToOp(e) ==
       [] e.k = "clear" -> OpClear
       [] e.k = "read"  -> OpRead
 
-Ticks(ts) == [j \in 1..Len(ts) |-> ts[j].o]
+Ticks(ts) == [j \in 1..Len(ts) |-> 1000 * ts[j].o + ts[j].e]
 
 \* the starting row of the very first segment is not demanded by the statement
 SegMatches(g, o, first) ==
@@ -42,6 +44,13 @@ SegMatches(g, o, first) ==
 SegsMatch(segs, obs) ==
     /\ Len(segs) = Len(obs)
     /\ \A i \in 1..Len(segs) : SegMatches(segs[i], obs[i], i = 1)
+
+\* when the recorded history has read the computed views (variables / fluxes / args tables), their index
+\* must be the whole accumulated axis
+AllTicks(segs) == FlattenSeq([i \in 1..Len(segs) |-> Ticks(segs[i].times)])
+ViewsMatch(segs, e) ==
+    e.vread => \/ e.views = AllTicks(segs)
+               \/ segs # <<>> /\ segs[1].times[1] = segs[1].t0 /\ Len(segs[1].times) > 1 /\ e.views = Tail(AllTicks(segs))
 
 TInit == /\ tid \in 1..Len(Traces)
          /\ l = 1
@@ -54,6 +63,7 @@ TStep == /\ l <= Len(Traces[tid].ev)
             IN /\ r.legal
                /\ r.raised = e.raised
                /\ SegsMatch(r.st.segs, e.segs)
+               /\ ViewsMatch(r.st.segs, e)
                /\ (e.err => r.st.segs = <<>>)          \* get_result() may only be a failure value when there is no segment
                /\ st' = r.st
          /\ l' = l + 1
